@@ -128,7 +128,7 @@ class Raised(Exception):
         self.exc_name = exc_name
 
 
-ALLOWED = (int, bool, str, type(None), tuple, list, dict, set, frozenset, Sym, Obj, deque, range, ModRef, Ref, Bound, ExtRef, SuperRef)
+ALLOWED = (int, bool, str, type(None), tuple, list, dict, set, frozenset, Sym, Obj, deque, range, slice, ModRef, Ref, Bound, ExtRef, SuperRef)
 
 
 CallHook = Callable[["Evaluator", ast.Call, Optional[str]], Any]
